@@ -50,6 +50,16 @@ class FEval:
             return sp.Integer(len(self.env[e.value.id]))
         return None
 
+    def _ifexp(self, e, T):
+        """a if c else b with numeric constant a, b: an atom ranging over their hull (the condition is dropped)."""
+        a, b = T.tr(e.body), T.tr(e.orelse)
+        if a.is_number and b.is_number:
+            lo, hi = min(a, b), max(a, b)
+            s = sp.Symbol("ifexp_%d" % len(self.atoms), real=True)
+            self.atoms.append((s, lo, hi, "conditional expression in {%s, %s}" % (a, b)))
+            return s
+        raise Untranslatable("conditional expression with non-constant branches")
+
     def _call(self, e, T):
         name = norm_src(e.func)
         if name.startswith(("np.random.", "numpy.random.", "random.")):
@@ -58,7 +68,15 @@ class FEval:
         if isinstance(e.func, ast.Name):
             helper = self.model.module_function(self.file, e.func.id)
             if helper is not None:
-                return self.inline_helper(helper, [T.tr(a) for a in e.args])
+                args = []
+                for a in e.args:
+                    if isinstance(a, ast.Call) and norm_src(a.func) in ("np.array", "numpy.array", "np.asarray") and len(a.args) == 1:
+                        a = a.args[0]
+                    if isinstance(a, ast.Name) and isinstance(self.env.get(a.id), list):
+                        args.append(self.env[a.id])          # the input vector itself
+                    else:
+                        args.append(T.tr(a))
+                return self.inline_helper(helper, args)
             if e.func.id == "len" and len(e.args) == 1 and isinstance(e.args[0], ast.Name) and \
                     isinstance(self.env.get(e.args[0].id), list):
                 return sp.Integer(len(self.env[e.args[0].id]))
@@ -120,6 +138,16 @@ class FEval:
         outer = self
 
         class Sub(ast.NodeTransformer):
+            def visit_IfExp(self, node):
+                self.generic_visit(node)
+                try:
+                    v = outer._ifexp(node, outer.T)
+                except Untranslatable:
+                    return node
+                nm = "__sub%d" % len(outer._tmp)
+                outer._tmp[nm] = v
+                return ast.copy_location(ast.Name(id=nm, ctx=ast.Load()), node)
+
             def visit_Subscript(self, node):
                 if isinstance(node.value, ast.Name) and isinstance(env.get(node.value.id), list):
                     v = outer.tr(node, env)
@@ -150,8 +178,13 @@ class FEval:
                     raise Untranslatable("multiple assignment in f")
                 t = s.targets[0]
                 if isinstance(t, ast.Name):
-                    if norm_src(s.value) in ("np.array(%s)" % t.id, "numpy.array(%s)" % t.id, "np.asarray(%s)" % t.id) and \
-                            isinstance(env.get(t.id), list):
+                    v0 = s.value
+                    if isinstance(v0, ast.Call) and norm_src(v0.func) in ("np.array", "numpy.array", "np.asarray") and len(v0.args) == 1 \
+                            and isinstance(v0.args[0], ast.Name) and isinstance(env.get(v0.args[0].id), list):
+                        env[t.id] = env[v0.args[0].id]        # a copy of the input vector: same symbolic coordinates
+                        continue
+                    if isinstance(v0, ast.Name) and isinstance(env.get(v0.id), list):
+                        env[t.id] = env[v0.id]
                         continue
                     env[t.id] = self.tr(s.value, env)
                     continue
